@@ -232,34 +232,7 @@ theorem alias_installs_link {w : World} (h : Inv w) {k : Nat} {o : Obj} (ho : w.
   · exact fun hm => (hi.indepNodup.mem_erase_iff.1 hm).1 rfl
   · intro j
     rw [heq]
-    show ((aliasConstraints w i1 i2).w.heap.get j).value = _
-    -- the constraint part writes constraints only
-    have : ∀ (w : World) (i : ObjId) (q : Par) (c : Con), parSetConstraint (w.heap.get i) c = .ok q →
-        ∀ j, ((w.putPar i q).heap.get j).value = (w.heap.get j).value := by
-      intro w i q c hq j
-      simp only [putPar_get]; split
-      · rename_i e; subst e
-        simp only [parSetConstraint] at hq
-        split at hq
-        · cases hq
-        · cases hq; rfl
-      · rfl
-    simp only [aliasConstraints, val]
-    split
-    · rfl
-    · split
-      · rfl
-      · rename_i q hq; exact this w i1 q _ hq j
-    · rfl
-    · split
-      · split
-        · rfl
-        · rename_i q2 hq2
-          split
-          · exact this w i2 q2 _ hq2 j
-          · rename_i q1 hq1
-            rw [this _ i1 q1 _ hq1 j, this w i2 q2 _ hq2 j]
-      · rfl
+    exact aliasConstraints_val w i1 i2 j
 
 /-- **alias_not_independent, invariant form**: in every reachable world the independent parameters
 of an object are exactly its parameters that no registered listener writes to (each once, and they
